@@ -974,27 +974,53 @@ class StmtGen:
         self.rng = rng
         self.eg = eg
 
+    def sub_slice(self, v, depth=1):
+        """Slice of `v`, nested `depth` levels (x[a:b][c:d]…): `_ComplexSliceLowerer` flattens it in the printed
+        fragment, the simulator on the original design does a read-modify-write through every level."""
+        r = self.rng
+        for _ in range(depth):
+            n = len(v)
+            lo = r.randrange(0, n)
+            v = _Slice(v, lo, r.randint(lo + 1, n))
+        return v
+
+    def nest_depth(self):
+        k = self.rng.random()
+        return 1 if k < 0.6 else (2 if k < 0.85 else 3)
+
     def target(self, sigs):
         r = self.rng
         s = r.choice(sigs)
         k = r.random()
-        if k < 0.6 or len(sigs) == 0:
+        if k < 0.55 or len(sigs) == 0:
             return s
         if k < 0.85:
-            n = s.nbits
-            lo = r.randrange(0, n)
-            hi = r.randint(lo + 1, n)
-            return _Slice(s, lo, hi)
+            return self.sub_slice(s, self.nest_depth())
         parts = []
         for t in r.sample(sigs, k=min(len(sigs), r.randint(2, 3))):
             if r.random() < 0.5:
                 parts.append(t)
             else:
-                lo = r.randrange(0, t.nbits)
-                parts.append(_Slice(t, lo, r.randint(lo + 1, t.nbits)))
+                parts.append(self.sub_slice(t, self.nest_depth()))
         if len(parts) < 2:
             return s
         return Cat(*parts)
+
+    def partial_writes(self, sigs):
+        """2-3 consecutive partial writes to ONE signal, at least one through nested slices: they must merge
+        (pending value read back at every level of the simulator's assign, part-select NBAs in the text)."""
+        r = self.rng
+        wide = [s for s in sigs if s.nbits >= 2]
+        if not wide:
+            return []
+        s = r.choice(wide)
+        out = []
+        n = r.randint(2, 3)
+        nested_at = r.randrange(1, n)
+        for k in range(n):
+            depth = r.randint(2, 3) if k == nested_at else self.nest_depth()
+            out.append(_Assign(self.sub_slice(s, depth), self.eg.gen(r.randint(0, 2))))
+        return out
 
     def cond(self):
         r = self.rng
@@ -1007,6 +1033,8 @@ class StmtGen:
         out = []
         for _ in range(n if n is not None else r.randint(1, 3)):
             k = r.random()
+            if r.random() < 0.2:
+                out += self.partial_writes(targets)
             if depth <= 0 or k < 0.5:
                 out.append(_Assign(self.target(targets), self.eg.gen(r.randint(0, 3))))
             elif k < 0.8:
@@ -1474,7 +1502,18 @@ class SafeGen:
                 ops.reverse()
             return _Operator(r.choice(ARITH + BITW), ops)
         if k < 0.5 and self.s:
-            return Mux(self.boolean(d - 1, True), r.choice(self.s), self.anyatom())
+            br = [r.choice(self.s), self.anyatom()]
+            if r.random() < 0.5:
+                br.reverse()
+            m = Mux(self.boolean(d - 1, True), *br)
+            if r.random() < 0.6:
+                # mixed-sign Mux as operand of a wider expression: its sign (s2 or s3) decides the promotion of
+                # the neighbour
+                ops = [m, r.choice([self.atom, self.atom, self.anyatom, self.sconst])()]
+                if r.random() < 0.5:
+                    ops.reverse()
+                return _Operator(r.choice(ARITH + BITW), ops)
+            return m
         if k < 0.58:
             return _Operator("<<<", [self.word(d - 1), Constant(r.randint(0, 3))])
         if k < 0.65:
